@@ -12,7 +12,7 @@ MANIFEST = dict(
          "completed; slot_atomic: if every access to a protected value happens under its lock, the projection of any run on that "
          "value is a sequence of whole critical sections, one thread each, in each thread's program order - so a request that "
          "takes a channel slot once is atomic for that channel and C01-C03 transfer to concurrent histories. The lock programs of "
-         "41 request kinds (commitment updates, new/setup/forget channel, balance, chaninfo and heartbeat queries, invoice and "
+         "43 request kinds (commitment updates, new/setup/forget channel, balance, chaninfo and heartbeat queries, invoice and "
          "keysend approval, allowlist, on-chain check and sign, block add/remove compact and streamed, persist_all) are RECORDED "
          "FROM THE REAL CODE on every run through an instrumented Mutex (hook cfg(vls_verif), vls-core/src/verif_sync.rs) and "
          "written to Gen/LockProgs.v; the rank is SEARCHED by tools/gen_locks.py (topological order of the observed lock-order "
@@ -23,8 +23,8 @@ MANIFEST = dict(
          "implementation-side sweep runs two real threads on controlled schedules (request P paused right after an acquisition or "
          "between two critical sections, request Q run against it, P resumed): first every pause point of every pair inside the "
          "channel life-cycle family and of the requests a static check-then-act test on the channel map names, then pairs that lock "
-         "the same channel slot, then a seeded random fill (quick 4000, thorough 14000 of ~29000); every schedule must complete and "
-         "replies + final stored and in-memory channel state must equal those of P;Q or Q;P. NOT covered: equality of replies and "
+         "the same channel slot, then a seeded random fill (quick: tiers 1 and 2 = ~5300, thorough 16000 of ~32000); every schedule must complete and "
+         "replies + final stored state, in-memory channel state and the in-memory node payment ledger must equal those of P;Q or Q;P. NOT covered: equality of replies and "
          "of cross-channel node state with a sequential order (linearizability) is not proved; data-dependent lock paths that the "
          "recording corpus does not take are invisible to the recorder; atomics / memory model; try_lock (not used by the code; "
          "its appearance is an error).",
@@ -203,18 +203,28 @@ def run(res):
     #    requests the static check names), then pairs that lock the same channel slot, then a seeded random fill.
     cta = gen_locks.check_then_act(classes, progs, "M")
     focus = sorted({x["request"] for x in cta})
-    n_sweep = 4000 if quick else 14000
+    cta_s = gen_locks.check_then_act(classes, progs, "S")
+    focus_s = sorted({x["request"] for x in cta_s})
+    focus_args = (["focus=" + ",".join(focus)] if focus else []) + (["focus_s=" + ",".join(focus_s)] if focus_s else [])
+    # quick: all of tiers 1 and 2 (sizes from the harness' own plan), thorough: 16000
+    n_sweep = 16000
+    if quick:
+        pl = subprocess.run([exe, "sweep", "--seed", str(res.seed), "--n", "0", "--tier", res.tier, "plan"] + focus_args,
+                            stdout=subprocess.PIPE, stderr=subprocess.PIPE, text=True, errors="replace", timeout=600)
+        plan = [json.loads(l[7:]) for l in pl.stdout.splitlines() if l.startswith("@@PLAN ")]
+        n_sweep = min(plan[0]["tier1"] + plan[0]["tier2"], 6500) if plan else 5000
     nshards = min(8, max(1, lib.NCPU // 2))
     sweep = {"races": 0, "completed": 0, "blocked_then_completed": 0, "program_changed": 0, "panicked": 0,
              "unpreparable": 0, "serializable": 0, "not_serializable": 0, "sequential_unavailable": 0,
-             "stuck": 0, "total_schedules": 0, "tiers": None, "selected": 0, "sample": None, "focus": focus}
+             "stuck": 0, "total_schedules": 0, "tiers": None, "selected": 0, "sample": None, "focus": focus,
+             "focus_node_state": focus_s}
     odd, stuck_reports = [], []
 
     def run_shard(sh):
         frm, out = 0, []
         while len([o for o in out if o[1] is not None]) < 3:
             p = subprocess.run([exe, "sweep", "--seed", str(res.seed), "--n", str(n_sweep), "--tier", res.tier,
-                                "from=%d" % frm, "shard=%d/%d" % (sh, nshards)] + (["focus=" + ",".join(focus)] if focus else []),
+                                "from=%d" % frm, "shard=%d/%d" % (sh, nshards)] + focus_args,
                                stdout=subprocess.PIPE, stderr=subprocess.PIPE, text=True, errors="replace", timeout=3000)
             sw, rc = None, None
             for line in p.stdout.splitlines():
@@ -274,8 +284,9 @@ def run(res):
         a, b = [x.split(":")[0].split("@")[0] for x in o["spec"]]
         for k in known:
             for pat in k.get("non_serializable", []):
-                if (fnmatch.fnmatch(a, pat["p"]) and fnmatch.fnmatch(b, pat["q"])) or \
-                        (fnmatch.fnmatch(b, pat["p"]) and fnmatch.fnmatch(a, pat["q"])):
+                # p = the request that was paused, q = the one that ran against it; optionally the replies
+                if fnmatch.fnmatch(a, pat["p"]) and fnmatch.fnmatch(b, pat["q"]) and \
+                        ("replies" not in pat or pat["replies"] == o["replies"]):
                     return k
         return None
     listed_odd = {}
@@ -334,6 +345,7 @@ def run(res):
         "evaluations": len(progs) + len(replays) + len([l for l in listed if l["replay"]]) + sweep["races"],
         "sweep": sweep,
         "map_check_then_act_requests": cta,
+        "node_state_check_then_act_requests": cta_s,
         "distinct_nontrivial": len(shapes),
         "programs": len(progs),
         "rule": "one fresh node (MemoryKVVStore persister, ManualClock; stub channel, two ready funded channels; per request the extra "
@@ -348,7 +360,10 @@ def run(res):
                 "release (between two critical sections). Order: (1) all points of all pairs inside the channel life-cycle family "
                 "acting on the same channel ids (new/setup/forget channel, heartbeat pruning, funding signature, persist_all) plus "
                 "the requests the static check-then-act test names, (2) pairs that lock the same channel slot with a commitment "
-                "update among them (seeded rotation), (3) seeded random fill; quick: the first 4000 (all of tiers 1 and 2), thorough: 14000; "
+                "update among them (seeded rotation), (3) seeded random fill; tier 1 also holds every pair of the four requests that carry "
+                "the same approved payment hash on channels A and B, and every request with two node-state sections (static test on "
+                "S) paused inside that window against every other request that takes the node state; quick: all of tiers 1 and 2, "
+                "thorough: 16000; "
                 "run on 8 processes. All must complete, and replies + final "
                 "state (every stored record without versions, every channel's in-memory enforcement state; order-insensitive) "
                 "must equal those of P;Q or of Q;P run sequentially.",
